@@ -161,7 +161,7 @@ func allSeq(n int) []string {
 func TestCheck(t *testing.T) {
 	r := h.Start(t, "C16")
 	defer r.Finish()
-	r.Meta("rule", "under virtual time (testing/synctest) the real cluster plugin is installed on a real core.Client in front of a scripted terminal IO handler that records (call, attempt, URL, virtual instant) and returns a scripted outcome. Exhaustive: every success/error/panic outcome sequence of length retry+2 x retry in {0,1,2,3} (and negative -> default 10, sampled) x plugin idempotent default {false,true} x per-call idempotent override {none,true,false} x per-call retry override {none,0,2} x 1..4 servers x {failover, failtry, failfast}; each combination also as the second and third call on the same plugin instance (shared failover state); forking: every outcome vector in {S,E,P}^n for n<=4 servers x delay orders; broadcast: every outcome vector; concurrent callers on one plugin instance. Oracle derived from the property text: attempt count, stop at first success, returned response = that attempt's, last error otherwise, server movement per mode, every-server-exactly-once. distinct_nontrivial = distinct (mode, servers, retry, flags, outcome sequence, call position) combinations executed")
+	r.Meta("rule", "under virtual time (testing/synctest) the real cluster plugin is installed on a real core.Client in front of a scripted terminal IO handler that records (call, attempt, URL, virtual instant) and returns a scripted outcome. Exhaustive: every success/error/panic outcome sequence of length retry+2 x retry in {0,1,2,3} (and negative -> default 10, sampled) x plugin idempotent default {false,true} x per-call idempotent override {none,true,false} x per-call retry override {none,0,2} x 1..4 servers x {failover, failtry, failfast}; each combination also as the second and third call on the same plugin instance (shared failover state); forking: every outcome vector in {S,E,P}^n for n<=4 servers x delay orders; broadcast: every outcome vector; concurrent callers on one plugin instance. Oracle derived from the property text: attempt count, stop at first success, returned response = that attempt's, last error otherwise, server movement per mode, every-server-exactly-once. distinct_nontrivial = distinct (mode, servers, retry, flags, outcome sequence, call position) combinations executed Added: non-default min/max intervals whose cap is reached within the budget (failover and failtry, plugin-level and per-call budgets, 1-3 servers).")
 	r.Meta("exhaustive", true)
 	r.Meta("assumptions", []string{
 		"failover: 'moves to another configured server after each failure' is checked as: with more than one server, attempt k+1 of a call goes to a URL different from attempt k, and every URL is a configured one",
